@@ -26,6 +26,7 @@ struct Stats {
     complete_checked: u64,
     complete_with_alt: u64,
     complete_multi_syllable: u64,
+    longest_checked: u64,
     choices_in_range: [u64; 3],
     choices_in_range_page_gt0: u64,
     choices_submenu_descent: u64,
@@ -118,6 +119,20 @@ pub fn check(out: &mut Out, st: &Step) {
     if let (Some(info), Some(v)) = (&pre_sel, st.cand_pre) {
         if let Some(n) = choice_index(st) {
             check_choice(out, st, info, v, n, &post_sel);
+        }
+    }
+    // ---------------------------------------------------------------- D. a freshly opened / re-targeted phrase list
+    // offers the longest range at the cursor that has a phrase (shorter ones follow with Down / Space)
+    if let (Some(p), Some(v)) = (&post_sel, st.cand_post) {
+        let w = st.op.split(' ').next().unwrap_or("");
+        let key_plain = st.key.is_some_and(|k| !k.modifiers.ctrl && !k.modifiers.shift);
+        let opened = pre_sel.is_none() && (sections(st.pre)[0] == "E" || w == "startsel");
+        let moved = pre_sel.is_some() && key_plain && st.key.is_some_and(|k| matches!(k.code, KeyCode::J | KeyCode::K)) && !com_is_empty(st.pre);
+        if p.kind == 'P' && (opened || moved) {
+            STATS.with(|s| s.borrow_mut().longest_checked += 1);
+            if let Some(Some(l)) = v.expect.as_ref().map(|e| e.longer) {
+                fail(out, "new", &format!("the list was opened for range {}..{} although the dictionaries hold a phrase for the longer range {}..{} at the cursor", p.begin, p.end, l.0, l.1), st);
+            }
         }
     }
     // ---------------------------------------------------------------- C. a new target starts at page 0
@@ -381,6 +396,7 @@ pub fn finish(out: &mut Out) {
         out.stat("c07_complete_checked", s.complete_checked);
         out.stat("c07_complete_with_alt_syllables", s.complete_with_alt);
         out.stat("c07_complete_multi_syllable", s.complete_multi_syllable);
+        out.stat("c07_opened_longest_range_checked", s.longest_checked);
         out.stat("c07_choices_phrase", s.choices_in_range[0]);
         out.stat("c07_choices_symbol_table", s.choices_in_range[1]);
         out.stat("c07_choices_special_symbol", s.choices_in_range[2]);
